@@ -130,6 +130,29 @@ def buildContext (d : Def) (kwargs : List (Key × Value)) (body : Option Value) 
     | .error e => .error e
     | .ok bound => .ok (bound ++ restEntry d sup ++ bodyEntry body)
 
+/-! ### the kwargs map a call site denotes -/
+
+/-- One attribute of a component call (`parse_component_attributes`), its value already
+evaluated: `name="str"`, `name={expr}` and the shorthand `name` are key/value entries, `{...expr}`
+is a spread (of a map; anything else is the render error "Spread operator requires a map"). -/
+inductive Attr where
+  | kv (key : String) (v : Value)
+  | spread (entries : List (Key × Value))
+  deriving Repr, Inhabited
+
+/-- `result_map.entry(k).or_insert(v)` -/
+def insertIfAbsent (m : List (Key × Value)) (k : Key) (v : Value) : List (Key × Value) :=
+  if m.any (fun e => e.1 == k) then m else m ++ [(k, v)]
+
+def addAttr (m : List (Key × Value)) : Attr → List (Key × Value)
+  | .kv k v => insertIfAbsent m (.str k.toList) v
+  | .spread es => es.foldl (fun m e => insertIfAbsent m e.1 e.2) m
+
+/-- `BuildMapWithSpreads`: "we process the values from right to left because right will always
+win against the same key/val on the left" (`BuildMap`, used when there is no spread, collects
+into a `HashMap`, where the last insertion of a key wins: the same map). -/
+def kwargsOf (attrs : List Attr) : List (Key × Value) := attrs.reverse.foldl addAttr []
+
 /-! ### component table by prefix priority -/
 
 /-- `Tera::get_template_priority`: 0 when no fallback prefix matches, else 1 + index of the first
